@@ -572,6 +572,9 @@ func VerifHarness_client_handshake() {
 	// handshake message in wire order up to (not including) the peer's Finished
 	verifAssert("C02.client.finishedMatchesAll12", len(vg.finIn) == 12 && len(vg.srvSum) == 12 && bytes.Equal(vg.finIn, vg.srvSum))
 	verifAssert("C03.client.transcriptIsWireOrder", bytes.Equal(vg.srvSeed, vg.wire[:vg.finPos]) || (resumed && bytes.Equal(vg.srvSeed, vg.wire[:vg.finPos])))
+	// C04: Finished = PRF(master, label, hash of ALL handshake messages so far) — the same fact under the key-schedule
+	// property (an endpoint pair that both leave a message out still agree with each other, not with the standard)
+	verifAssert("C04.client.finishedOverWholeTranscript", bytes.Equal(vg.srvSeed, vg.wire[:vg.finPos]))
 	// C01: the application protocol the client reports is the one the server selected (full and abbreviated alike)
 	verifAssert("C01.client.alpnIsWhatTheServerSelected", c.clientProtocol == vg.shALPN)
 	verifAssert("C03.client.ccsBeforeFinished", vg.n >= 2 && vg.kinds[vg.n-2] == kCCS && vg.kinds[vg.n-1] == kFin)
